@@ -11,6 +11,10 @@ level B  on a (smaller) box the axioms are demonstrated by composing real calls:
          flip == inverse element), every set partition of the summands with every choice of group signatures
          (includes both associativity bracketings and the groupings fuse_legs uses, S_g = s of the first member)
          == fusing at once, batch call == element-wise calls, the add_charges wrapper;
+edge     per symmetry: empty batches (0, m, NSYM), inputs outside the canonical range of finite factors, int32 arrays and
+         list / numpy containers in add_charges, U(1) charges up to 2^63-1 (judged while every partial sum fits int64);
+         legs_union (any order / bracketing = set union of (t, D); incompatible operands rejected), leg_product /
+         undo_leg_product against the group law for every order of 1-3 legs, gaussian_leg basics;
 Leg      the full product of an argument grid in and just outside the valid domain against a declarative validity
          predicate; accepted legs: canonical sorted storage, python-int types, conj involution / dual, hash / equality.
 The enumerated counts are compared with the closed forms in finalize; coverage.exhaustive is set only then.
@@ -112,6 +116,9 @@ def units(tier):
                     out.append(("fuse" + level, sym, m, B, None))
     for sym in SYMS:
         out.append(("leg", sym, 0, 0, None))
+    for sym in SYMS:
+        out.append(("fuse-edge", sym, 0, 0, None))
+        out.append(("legops", sym, 0, 0, None))
     return out
 
 
@@ -134,13 +141,37 @@ def plan(tier):
     return {"cases": n, "shards": 8, "budget_s": 100}
 
 
+def per_symmetry_floors():
+    """Every symmetry class, also the rarely used ones, must have been through every axiom and every edge family."""
+    f = {}
+    base = {"perm_checks": 20, "identity_checks": 20, "inverse_checks": 20, "grouping_checks": 100, "grouping_as_fusion": 25,
+            "assoc_checks": 8, "single_row_checks": 15, "add_charges_checks": 15, "fuse_empty_batch_checks": 28,
+            "legs_union_must_reject": 4, "gaussian_leg_checks": 6, "undo_leg_product_must_reject": 1}
+    for sym in SYMS:
+        mods = G.MODULI[sym]
+        for k, v in base.items():
+            f[f"{k}:{sym}"] = v
+        f[f"legs_union_checks:{sym}"] = 10 if mods else 1
+        f[f"legs_union_assoc_checks:{sym}"] = 8 if mods else 1
+        f[f"leg_product_checks:{sym}"] = 20 if mods else 2
+        if mods:
+            f[f"fuse_int32_rows:{sym}"] = 6
+            f[f"add_charges_container_checks:{sym}"] = 6
+        if any(mods):
+            f[f"fuse_noncanonical_input_rows:{sym}"] = 300
+        if 0 in mods:
+            f[f"fuse_large_u1_checks:{sym}"] = 1000
+    f["leg_default_history_checks"] = 300
+    return f
+
+
 def floors(tier):
     k = 10 if tier == "thorough" else 1
     return {"evaluations": 10_000_000 * (30 if tier == "thorough" else 1), "fuse_calls": 2000 * k, "oracle_selfchecks": 2000, "perm_checks": 500,
             "grouping_checks": 2000, "grouping_as_fusion": 300, "assoc_checks": 100, "identity_checks": 500, "inverse_checks": 500,
             "single_row_checks": 2000, "add_charges_checks": 2000, "leg_grid_points": 3000, "leg_accepted": 300,
             "leg_rejected": 1000, "leg_conj_checks": 300, "leg_hash_eq_checks": 300, "leg_dual_tensor_checks": 100,
-            "units_done": len(units(tier))}
+            "units_done": len(units(tier)), **per_symmetry_floors()}
 
 
 # ------------------------------------------------------------------ vectorised oracle built from vmon.groups
@@ -312,19 +343,19 @@ def unit_fuse_B(ctx, sym, m, B, first):
                 return True
             # commutativity: every permutation of (charge, signature) pairs
             for p in perms[1:]:
-                ctx.count("perm_checks")
+                ctx.count("perm_checks"); ctx.count("perm_checks:" + sym)
                 r = call_fuse(ctx, sym, np.ascontiguousarray(T[:, p, :]), tuple(sa[list(p)].tolist()), ns, n)
                 same(r, flat, f"axiom:commutativity:{sym}", f"permuting summands by {p} changes the result", p)
             # identity: appended zero charge with either signature; canonical form is idempotent
             for e in (1, -1):
-                ctx.count("identity_checks")
+                ctx.count("identity_checks"); ctx.count("identity_checks:" + sym)
                 r = call_fuse(ctx, sym, np.concatenate([T, zero], axis=1), s + (e,), ns, n)
                 same(r, flat, f"axiom:identity:{sym}", f"adding the zero charge (signature {e}) changes the result")
-            ctx.count("identity_checks")
+            ctx.count("identity_checks"); ctx.count("identity_checks:" + sym)
             r = call_fuse(ctx, sym, flat.reshape(K, 1, nsym), (1,), 1, n)
             same(r, flat, f"axiom:identity:{sym}", "re-fusing a fused charge alone with signature +1 changes it (result not canonical)")
             # inverse: flipping all signatures == flipping new_signature == group inverse
-            ctx.count("inverse_checks", 3)
+            ctx.count("inverse_checks", 3); ctx.count("inverse_checks:" + sym, 3)
             neg = call_fuse(ctx, sym, T, tuple(-x for x in s), ns, n)
             neg2 = call_fuse(ctx, sym, T, s, -ns, n)
             same(neg2, neg, f"axiom:inverse:{sym}", "flipping new_signature differs from flipping every signature")
@@ -341,26 +372,26 @@ def unit_fuse_B(ctx, sym, m, B, first):
                 else:
                     gsigs = list(itertools.product((1, -1), repeat=len(part)))
                 for S in gsigs:
-                    ctx.count("grouping_checks")
+                    ctx.count("grouping_checks"); ctx.count("grouping_checks:" + sym)
                     as_fusion = all(S[g] == s[grp[0]] for g, grp in enumerate(part))
                     effs = [call_fuse(ctx, sym, np.ascontiguousarray(T[:, grp, :]), tuple(s[i] for i in grp), S[g], n)
                             for g, grp in enumerate(part)]
                     top = call_fuse(ctx, sym, np.stack(effs, axis=1), S, ns, n)
                     if as_fusion:
-                        ctx.count("grouping_as_fusion")
+                        ctx.count("grouping_as_fusion"); ctx.count("grouping_as_fusion:" + sym)
                     if m == 3 and all(x == 1 for x in S) and sorted(map(sorted, part)) in ([[0, 1], [2]], [[0], [1, 2]]):
-                        ctx.count("assoc_checks")
+                        ctx.count("assoc_checks"); ctx.count("assoc_checks:" + sym)
                     same(top, flat, f"axiom:grouping:{sym}", f"fusing in groups {part} with group signatures {S} differs from fusing at once",
                          {"partition": part, "group_signatures": S})
             # batch vs element-wise and the add_charges wrapper, on a stride of rows (all rows of small boxes)
             stride = 1 if K <= 64 else max(1, K // 24)
             for i in range(0, K, stride):
-                ctx.count("single_row_checks")
+                ctx.count("single_row_checks"); ctx.count("single_row_checks:" + sym)
                 one = call_fuse(ctx, sym, T[i:i + 1], s, ns, n)
                 if not (isinstance(one, np.ndarray) and one.shape == (1, nsym) and np.array_equal(one[0], flat[i])):
                     ctx.violation(f"batch-vs-single:{sym}", f"{sym}.fuse on the single row {T[i].tolist()} gives {np.asarray(one).tolist()} "
                                   f"but row {i} of the batch call is {flat[i].tolist()}", wit)
-                ctx.count("add_charges_checks")
+                ctx.count("add_charges_checks"); ctx.count("add_charges_checks:" + sym)
                 charges = [tuple(int(x) for x in t) for t in T[i]]
                 keep = [tuple(c) for c in charges]
                 want = G.add(sym, charges, s, ns)
@@ -378,7 +409,7 @@ def unit_fuse_B(ctx, sym, m, B, first):
             ctx.counters["evaluations"] += K - 1
             ctx.case(("B", sym, m, s, ns), True)
     if first in (None, 0) and m == 1:
-        ctx.count("add_charges_checks")
+        ctx.count("add_charges_checks"); ctx.count("add_charges_checks:" + sym)
         if cls.add_charges() != G.zero(sym) or cls.zero() != G.zero(sym):
             ctx.violation(f"add_charges:{sym}", f"add_charges() = {cls.add_charges()!r}, zero() = {cls.zero()!r}; expected {G.zero(sym)}")
         if cls.NSYM != len(G.MODULI[sym]):
@@ -515,6 +546,12 @@ def judge_leg(ctx, sym, names, s, outcome, leg, valid, reason, store, symcls):
 def leg_followups(ctx, sym, names, leg, cfg, symcls):
     import yastn
     t, D, s = leg.t, leg.D, leg.s
+    # fusion-history arguments left to their defaults: an elementary ('o') leg
+    ctx.count("leg_default_history_checks")
+    hf = leg.hf
+    if not (tuple(hf.tree) == (1,) and hf.op == 'o' and tuple(hf.s) == (s,) and tuple(hf.t) == () and tuple(hf.D) == ()
+            and leg.is_fused() is False and leg.history() == 'o' and leg.drop_history() == leg):
+        ctx.violation("leg:default-history", f"Leg{names}: default fusion history is {hf!r}, history()={leg.history()!r}")
     # conj: involution, dual space
     ctx.count("leg_conj_checks")
     c = leg.conj()
@@ -582,6 +619,230 @@ def unit_leg(ctx, sym):
                              if (tname, dname, sname) in (("two-unsorted", "ok", "1"), ("outside-high[0]", "ok", "-1")) else None)
 
 
+
+# ------------------------------------------------------------------ fuse edge cases (per symmetry)
+
+INT64_MAX = 2 ** 63 - 1
+
+
+def unit_fuse_edge(ctx, sym):
+    """Empty batches, non-canonical Zn inputs, other integer containers, U(1) charges near the int64 range."""
+    cls = G.sym_module(sym)
+    mods = G.MODULI[sym]
+    nsym = len(mods)
+    # (a) empty batches: shape (0, m, NSYM) -> (0, NSYM), integer dtype, for every signature vector
+    for m in (1, 2, 3):
+        T = np.zeros((0, m, nsym), dtype=np.int64)
+        for s_ in itertools.product((1, -1), repeat=m):
+            for ns in (1, -1):
+                ctx.count("fuse_empty_batch_checks"); ctx.count("fuse_empty_batch_checks:" + sym)
+                r = call_fuse(ctx, sym, T, s_, ns, m)
+                if not (isinstance(r, np.ndarray) and r.shape == (0, nsym) and "int" in r.dtype.name):
+                    ctx.violation(f"fuse-empty-batch:{sym}", f"{sym}.fuse on an empty batch (0, {m}, {nsym}) returned "
+                                  f"{type(r).__name__} shape {getattr(r, 'shape', None)} dtype {getattr(r, 'dtype', None)}")
+    ctx.case(("edge", sym, "empty"), True)
+    if nsym == 0:
+        return
+    # (b) inputs outside the canonical range of the finite factors (fuse canonicalises; Leg validation relies on it):
+    #     finite components in [-2n-1, 3n], U(1) components in [-1, 1]; m = 1, 2; all signatures
+    comps = [tuple(range(-2 * mod - 1, 3 * mod + 1)) if mod else (-1, 0, 1) for mod in mods]
+    vals = list(itertools.product(*comps))
+    if any(mods):
+        for m in (1, 2):
+            rows = list(itertools.product(vals, repeat=m))
+            if len(rows) > 40000:
+                rows = rows[::len(rows) // 40000 + 1]
+            T = np.array(rows, dtype=np.int64).reshape(len(rows), m, nsym)
+            T.flags.writeable = False
+            for s_ in itertools.product((1, -1), repeat=m):
+                for ns in (1, -1):
+                    exp = np.array([G.add(sym, r_, s_, ns) for r_ in rows], dtype=np.int64).reshape(len(rows), nsym)
+                    r = call_fuse(ctx, sym, T, s_, ns, m)
+                    ctx.count("fuse_noncanonical_input_rows", len(rows)); ctx.count("fuse_noncanonical_input_rows:" + sym, len(rows))
+                    ok = isinstance(r, np.ndarray) and r.shape == exp.shape and np.array_equal(r, exp)
+                    if not ok:
+                        i = int(np.flatnonzero(np.any(np.asarray(r).reshape(exp.shape) != exp, axis=1))[0]) if getattr(r, "shape", None) == exp.shape else 0
+                        ctx.violation(f"fuse-noncanonical-input:{sym}", f"{sym}.fuse(charges={list(rows[i])}, signatures={list(s_)}, "
+                                      f"new_signature={ns}) = {np.asarray(r)[i].tolist() if getattr(r, 'shape', None) == exp.shape else r!r}, "
+                                      f"expected the canonical {exp[i].tolist()}", {"sym": sym, "row": list(map(list, rows[i])), "s": s_, "ns": ns})
+        ctx.case(("edge", sym, "noncanonical"), True)
+    # (c) other integer containers: int32 arrays; add_charges with lists / numpy ints / numpy rows / mixed
+    bx = box(sym, 1)
+    rows = list(itertools.product(bx, repeat=2))[:200]
+    T32 = np.array(rows, dtype=np.int32).reshape(len(rows), 2, nsym)
+    for s_ in ((1, 1), (1, -1), (-1, -1)):
+        for ns in (1, -1):
+            exp = np.array([G.add(sym, r_, s_, ns) for r_ in rows], dtype=np.int64).reshape(len(rows), nsym)
+            r = cls.fuse(T32, s_, ns)
+            ctx.count("fuse_calls"); ctx.count("fuse_int32_rows", len(rows)); ctx.count("fuse_int32_rows:" + sym, len(rows))
+            if not (isinstance(r, np.ndarray) and "int" in r.dtype.name and r.shape == exp.shape and np.array_equal(r, exp)):
+                ctx.violation(f"fuse-int32-input:{sym}", f"{sym}.fuse on an int32 array with signatures {s_}, new_signature {ns} differs from the group law")
+            for j, r_ in enumerate(rows[::7]):
+                want = G.add(sym, r_, s_, ns)
+                forms = {"lists": [list(c) for c in r_], "numpy-ints": [tuple(np.int64(x) for x in c) for c in r_],
+                         "numpy-rows": [np.array(c, dtype=np.int64) for c in r_], "mixed": [list(r_[0]), np.array(r_[1])]}
+                for fname, arg in forms.items():
+                    ctx.count("add_charges_container_checks"); ctx.count("add_charges_container_checks:" + sym)
+                    got = cls.add_charges(*arg, signatures=np.array(s_) if j % 2 else s_, new_signature=ns)
+                    if not (isinstance(got, tuple) and got == want and all(type(x) is int for x in got)):
+                        ctx.violation(f"add_charges:{sym}:container", f"{sym}.add_charges with charges given as {fname} {arg!r}, signatures {s_}, "
+                                      f"new_signature {ns} = {got!r}; expected {want!r} as python ints")
+    ctx.case(("edge", sym, "containers"), True)
+    # (d) U(1) components near the int64 range: judged while every partial sum of the signed charges fits into int64
+    #     (no range is documented; outside, the silent wrap-around is counted, not judged)
+    if 0 in mods:
+        big = [2 ** 62, -(2 ** 62), 2 ** 62 - 1, 2 ** 61, -(2 ** 61), 2 ** 63 - 1, -(2 ** 63) + 1, 1, -1, 0]
+        u = [k for k, mod in enumerate(mods) if mod == 0]
+        for m in (1, 2, 3):
+            for tup in itertools.product(big, repeat=m):
+                for s_ in itertools.product((1, -1), repeat=m):
+                    signed = [a * b for a, b in zip(tup, s_)]
+                    subs = [sum(c) for r_ in range(1, m + 1) for c in itertools.combinations(signed, r_)]
+                    charges = [tuple(t_ if k in u else 0 for k in range(nsym)) for t_ in tup]
+                    T = np.array(charges, dtype=np.int64).reshape(1, m, nsym)
+                    for ns in (1, -1):
+                        if all(abs(x) <= INT64_MAX for x in subs):
+                            want = G.add(sym, charges, s_, ns)
+                            r = cls.fuse(T, s_, ns)
+                            ctx.count("fuse_calls"); ctx.count("fuse_large_u1_checks"); ctx.count("fuse_large_u1_checks:" + sym)
+                            if tuple(int(x) for x in r.reshape(-1)) != want:
+                                ctx.violation(f"fuse-large-u1:{sym}", f"{sym}.fuse(charges={charges}, signatures={list(s_)}, new_signature={ns}) = "
+                                              f"{r.reshape(-1).tolist()} expected {list(want)} (all partial sums fit into int64)")
+                        else:
+                            ctx.count("fuse_int64_overflow_unjudged")
+        ctx.case(("edge", sym, "large-u1"), True)
+
+
+# ------------------------------------------------------------------ public leg operations (per symmetry)
+
+def _leg_family(sym, symcls):
+    """Small family of legs over up to three canonical charges with charge-determined dimensions (so unions are consistent)."""
+    import yastn
+    nsym = len(G.MODULI[sym])
+    if nsym == 0:
+        return [yastn.Leg(symcls, s=1, D=(3,))], {(): 3}
+    C = box(sym, 1)
+    base = [C[0], C[len(C) // 2], C[-1]] if len(C) > 2 else list(C)
+    base = sorted(set(base))
+    dim = {c: 2 + i for i, c in enumerate(base)}
+    fam = []
+    for r in range(1, len(base) + 1):
+        for sub in itertools.combinations(base, r):
+            fam.append(yastn.Leg(symcls, s=1, t=sub, D=tuple(dim[c] for c in sub)))
+    return fam, dim
+
+
+def unit_legops(ctx, sym):
+    import yastn
+    symcls = G.sym_module(sym)
+    cfg = yastn.make_config(sym=symcls)
+    nsym = len(G.MODULI[sym])
+    fam, dim = _leg_family(sym, symcls)
+    tD = lambda l: tuple(zip(l.t, l.D))
+    # ---- legs_union: set union of (t, D), any order, any bracketing; single operand is returned as is
+    for a in fam:
+        ctx.count("legs_union_checks"); ctx.count("legs_union_checks:" + sym)
+        if yastn.legs_union(a) != a:
+            ctx.violation("legs_union:single", f"{sym}: legs_union(a) != a")
+    for n_ in (2, 3):
+        for ops in itertools.product(fam, repeat=n_):
+            if n_ == 3 and len(fam) > 4 and (hash(tuple(map(tD, ops))) % 3):      # all pairs, a third of the ordered triples
+                continue
+            want = tuple(sorted(set().union(*(set(tD(l)) for l in ops))))
+            ctx.count("legs_union_checks"); ctx.count("legs_union_checks:" + sym)
+            results = [yastn.legs_union(*p_) for p_ in itertools.permutations(ops)]
+            if n_ == 3:
+                a, b, c = ops
+                results += [yastn.legs_union(yastn.legs_union(a, b), c), yastn.legs_union(a, yastn.legs_union(b, c))]
+                ctx.count("legs_union_assoc_checks"); ctx.count("legs_union_assoc_checks:" + sym)
+            bad = [r for r in results if not (isinstance(r, yastn.Leg) and tD(r) == want and r.s == 1 and r.sym is symcls and r == results[0])]
+            if bad:
+                ctx.violation(f"legs_union:not-set-union", f"{sym}: legs_union of {[tD(l) for l in ops]} in some order / bracketing gives "
+                              f"{tD(bad[0])}, expected {want}", {"sym": sym, "operands": [list(map(list, tD(l))) for l in ops]})
+    # incompatible operands are rejected with YastnError
+    a = fam[-1]
+    rejects = [("signature", (a, a.conj()))]
+    if nsym:
+        other = yastn.Leg(symcls, s=1, t=a.t, D=tuple(d + 1 for d in a.D))
+        rejects.append(("dimension", (a, other)))
+        rejects.append(("dimension", (other, fam[0], a)))
+        rejects.append(("dimension", (fam[0], fam[0], a, other)))     # the clash may sit anywhere in a longer argument list
+    osym = G.sym_module("Z2" if sym != "Z2" else "Z3")
+    rejects.append(("symmetry", (a, yastn.Leg(osym, s=1, t=((0,),), D=(a.D[0],)))))
+    for why, ops in rejects:
+        for p_ in itertools.permutations(ops):
+            ctx.count("legs_union_must_reject"); ctx.count("legs_union_must_reject:" + sym)
+            try:
+                r = yastn.legs_union(*p_)
+                ctx.violation(f"legs_union:accepted-incompatible:{why}", f"{sym}: legs_union accepted legs with different {why}: {p_} -> {r}")
+            except yastn.YastnError:
+                pass
+    # ---- leg_product / undo_leg_product against the group law, every order of 1-3 legs with mixed signatures
+    pool = fam[:4] + [l.conj() for l in fam[:3]]
+    for n_ in (1, 2, 3):
+        for ops in itertools.product(pool, repeat=n_):
+            if n_ == 3 and (hash(tuple((l.s, tD(l)) for l in ops)) % 4):
+                continue
+            ctx.count("leg_product_checks"); ctx.count("leg_product_checks:" + sym)
+            seff = ops[0].s
+            acc = {}
+            for combo in itertools.product(*(tuple(zip(l.t, l.D)) for l in ops)):
+                te = G.add(sym, [c for c, _ in combo], [l.s for l in ops], seff)
+                acc[te] = acc.get(te, 0) + int(np.prod([d for _, d in combo]))
+            want = tuple(sorted(acc.items()))
+            lp = yastn.leg_product(*ops)
+            if not (isinstance(lp, yastn.Leg) and lp.s == seff and tD(lp) == want and lp.sym is symcls and (n_ == 1 or lp.is_fused())):
+                ctx.violation(f"leg_product:value:{sym}", f"leg_product of {[(l.s, tD(l)) for l in ops]} = s={lp.s} {tD(lp)}, expected s={seff} {want}")
+                continue
+            back = yastn.undo_leg_product(lp)
+            if tuple(back) != tuple(ops):
+                ctx.violation(f"leg_product:undo:{sym}", f"undo_leg_product(leg_product(*legs)) != legs for {[(l.s, tD(l)) for l in ops]}: {back}")
+            if lp.conj().conj() != lp or lp.conj().s != -seff or tuple(yastn.undo_leg_product(lp.conj())) != tuple(l.conj() for l in ops):
+                ctx.violation(f"leg_product:conj:{sym}", f"conj of a product leg is not the product of the conjugate legs for {[(l.s, tD(l)) for l in ops]}")
+            if want:
+                keep = (want[0][0],)
+                lq = yastn.leg_product(*ops, t_allowed=keep)
+                if tD(lq) != (want[0],):
+                    ctx.violation(f"leg_product:t_allowed:{sym}", f"leg_product(..., t_allowed={keep}) = {tD(lq)}, expected {(want[0],)}")
+    for l in fam[:2]:
+        ctx.count("undo_leg_product_must_reject"); ctx.count("undo_leg_product_must_reject:" + sym)
+        try:
+            r = yastn.undo_leg_product(l)
+            ctx.violation("undo_leg_product:accepted-elementary-leg", f"{sym}: undo_leg_product of an elementary leg returned {r}")
+        except yastn.YastnError:
+            pass
+    # ---- gaussian_leg: a Leg with the requested signature, total dimension and (optionally) admissible charges
+    for D_total in (1, 5, 16):
+        for s_ in (1, -1):
+            for kw in ({}, {"nonnegative": True}, {"sigma": 2}, {"method": "rand"}):
+                ctx.count("gaussian_leg_checks"); ctx.count("gaussian_leg_checks:" + sym)
+                cfg.backend.random_seed(seed=D_total)
+                g = yastn.gaussian_leg(cfg, s=s_, D_total=D_total, **kw)
+                ok = isinstance(g, yastn.Leg) and g.s == s_ and sum(g.D) == D_total and all(d > 0 for d in g.D) and g.sym is symcls \
+                    and list(g.t) == sorted(set(g.t)) and all(G.is_canon(sym, c) for c in g.t)
+                if ok and kw.get("nonnegative"):
+                    ok = all(x >= 0 for c in g.t for x in c)
+                if ok and "method" not in kw:
+                    ok = yastn.gaussian_leg(cfg, s=s_, D_total=D_total, **kw) == g      # 'round' is documented as repeatable
+                if not ok:
+                    ctx.violation(f"gaussian_leg:{sym}", f"gaussian_leg(s={s_}, D_total={D_total}, {kw}) = {g}")
+    if nsym:
+        l0 = fam[min(2, len(fam) - 1)]
+        for s_ in (1, -1):
+            ctx.count("gaussian_leg_checks"); ctx.count("gaussian_leg_checks:" + sym)
+            g = yastn.gaussian_leg(cfg, s=s_, D_total=12, legs=[l0, l0.conj()])
+            allowed = {G.add(sym, (a_, b_), (l0.s, -l0.s), -s_) for a_ in l0.t for b_ in l0.t}
+            if not (sum(g.D) == 12 and set(g.t) <= allowed and g.s == s_):
+                ctx.violation(f"gaussian_leg:{sym}", f"gaussian_leg(legs=[l, l.conj()], s={s_}) has charges {g.t}, admissible {sorted(allowed)}")
+        ctx.count("gaussian_leg_must_reject")
+        try:
+            yastn.gaussian_leg(cfg, n=(0,) * (nsym + 1), D_total=4)
+            ctx.violation("gaussian_leg:accepted-wrong-n", f"{sym}: gaussian_leg accepted a mean charge of wrong length")
+        except yastn.YastnError:
+            pass
+    ctx.case(("legops", sym), True, {"level": "leg operations", "sym": sym, "family": [list(map(list, tD(l))) for l in fam][:4]})
+
+
 # ------------------------------------------------------------------ driver
 
 def run_case(ctx, idx):
@@ -590,8 +851,12 @@ def run_case(ctx, idx):
         unit_fuse_A(ctx, sym, m, B, first)
     elif kind == "fuseB":
         unit_fuse_B(ctx, sym, m, B, first)
-    else:
+    elif kind == "leg":
         unit_leg(ctx, sym)
+    elif kind == "fuse-edge":
+        unit_fuse_edge(ctx, sym)
+    else:
+        unit_legops(ctx, sym)
     ctx.count("units_done")
 
 
